@@ -1,4 +1,3 @@
-from math import ceil
 from typing import Optional
 from typing import Tuple
 from typing import cast
@@ -123,7 +122,7 @@ class LocalVolatilityStock(BasePrimary):
 
         output = generate_local_volatility_process(
             n_paths=n_paths,
-            n_steps=ceil(time_horizon / self.dt + 1),
+            n_steps=self._get_n_steps(time_horizon),
             sigma_fn=self.sigma_fn,
             init_state=init_state,
             dt=self.dt,
